@@ -58,6 +58,13 @@ OBLIGATIONS += [
        assumes=["crypto_core_salsa20 replaced by a logging stub returning arbitrary-but-known blocks; its equality with the specification is c03.f.core.salsa20"])
     for nb, t in ((0, "quick"), (1, "quick"), (64, "quick"), (65, "quick"), (63, "thorough"), (128, "thorough"), (130, "thorough"))
 ] + [
+    ob("c03.f.%s_ref.bytes_%d" % (nm, nb), "harness/salsa_ref.c", "hb_stream", ["crypto_stream_%s" % nm, "crypto_stream_%s_xor" % nm],
+       "%s streaming over %d bytes: block i from nonce||le64(i) under the key, XOR and plain form, exact length (the byte carry of the block counter is not reached at this length: NOT decided)" % (nm, nb),
+       defs=["-DNB=%d" % nb, "-DVBLKS=%d" % max(1, (nb + 63) // 64), "-DSVAR=%d" % sv], bound="none (constant length %d, every key / nonce / message)" % nb,
+       cbmc=["--unwind", str(64 * max(1, (nb + 63) // 64) + 12), "--unwinding-assertions"], timeout=600, tier=t,
+       assumes=["crypto_core_%s replaced by a logging stub returning arbitrary-but-known blocks; its equality with the specification is c03.f.core.%s" % (nm, nm)])
+    for sv, nm in ((1, "salsa2012"), (2, "salsa208")) for nb, t in ((0, "quick"), (1, "quick"), (65, "quick"), (128, "thorough"))
+] + [
     ob("c03.f.xchacha20", "harness/xstream.c", "hf_xstream", ["crypto_stream_xchacha20", "crypto_stream_xchacha20_xor", "crypto_stream_xchacha20_xor_ic"],
        "XChaCha20 = ChaCha20(nonce[16..24), HChaCha20(key, nonce[0..16)), counter) for every length and counter", defs=["-DVARX=0"], cbmc=["--unwind", "34", "--unwinding-assertions", "--object-bits", "18"],
        assumes=["crypto_core_hchacha20 / crypto_stream_chacha20* replaced by transcript stubs (proved separately: c03.f.core.hchacha20, c03.f.chacha20_ref.*)"]),
